@@ -208,16 +208,44 @@ def isFloatRepr (x : String) : Bool :=
     mantOK && exOK && ((sgn == '+' && e ≥ 16) || (sgn == '-' && e ≥ 5))
   | _ => false
 
+/-- `_NAME_RE`: a dict key that can be written as an object-field name -/
+def isNameText (x : String) : Bool :=
+  match x.toList with
+  | c :: r => (c == '_' || c.isAlpha) && r.all (fun d => d == '_' || d.isAlphanum)
+  | [] => false
+
+/-- a canonical-JSON float `{"$float": repr}` -/
+def floatObj? (kvs : List (String × J)) : Option String :=
+  match kvs with | [("$float", .str r)] => some r | _ => none
+
+mutual
 /-- `ast_node_from_value` at a custom (pass-through) scalar. A STRING is written as a number only when the number
-    denotes the very same text (fix H3: `_INT_RE` match, or `str(float(x)) == x`), otherwise as a string literal; in
-    all three cases the literal reads back, through `default_scalar`, as the text itself. -/
-def customLit (v : J) : Option Lit :=
-  match v with
+    denotes the very same text (fix H3: `_INT_RE` match, or `str(float(x)) == x`), otherwise as a string literal;
+    dicts and lists / tuples are written as object / list literals (fix I7; keys must be names, in dict order). -/
+def customLit : J → Option Lit
   | .bool b => some (.bool b)
   | .str x => some (if isIntText x then .int x (x ++ ".0") else if isFloatRepr x then .float x x else .str x)
   | .num k => some (.float (toString k) (intRepr k))             -- FloatValue(str(int))
-  | .obj [("$float", .str r)] => some (.float r r)                 -- FloatValue(str(float))
-  | _ => none
+  | .arr items => (customList items).map .list
+  | .obj kvs =>
+    match floatObj? kvs with
+    | some r => some (.float r r)                                -- FloatValue(str(float))
+    | none => if kvs.all (fun kv => isNameText kv.1) then (customFields kvs).map .obj else none
+  | .null => none
+/-- `_custom_scalar_entry`: `None` inside a structured value is `null` -/
+def customList : List J → Option (List Lit)
+  | [] => some []
+  | x :: xs =>
+    match (match x with | .null => some Lit.null | v => customLit v), customList xs with
+    | some a, some b => some (a :: b)
+    | _, _ => none
+def customFields : List (String × J) → Option (List (String × Lit))
+  | [] => some []
+  | (k, x) :: xs =>
+    match (match x with | .null => some Lit.null | v => customLit v), customFields xs with
+    | some a, some b => some ((k, a) :: b)
+    | _, _ => none
+end
 
 mutual
 /-- `ast_node_from_value(v, ty)` as a literal; `none` = ValueError/TypeError -/
